@@ -26,6 +26,10 @@ CHECKS = {
    text='On every enumerated path the number of table rebuilds per table in the batched run (one AppMutator, and the Evolver pipeline) is compared with the stepwise run and with the bound of one rebuild per maximal run of consecutive mergeable same-model mutations.',
    note='Rebuilds are recognised as CREATE TABLE "TEMP_TABLE" + RENAME in the connection.execute_wrapper trace; model identity follows RenameModel, ambiguous table-name reuse is skipped and counted.',
    design='3/C18'),
+ 'C04': dict(level='model_checking', technique='explicit-state exploration of upgrade-run histories (memoised on (code version, canonical database state)) through the real Evolver and the evolve/migrate commands; differential convergence oracle',
+   text='For every generated history V0..Vn (n=2 quick, 3 thorough; every evolution in the app SEQUENCE, discovered the normal way) and every start point, the database is installed fresh through the real Evolver and then upgraded along EVERY chain of later versions (direct and stepwise are the extremes); all final states must have the schema of a fresh install, equal rows per start point, exactly the SEQUENCE recorded once, a stored signature with empty Diff against the current models, and a further run must report nothing to do and execute no SQL.',
+   note='Histories whose single steps are not C01-clean, and jumps whose batched AppMutator run differs from stepwise (C03), are outside the domain and counted. D3/D4 run on a deterministic stride of the histories, D2 on all.',
+   design='3/C04'),
  'C09': dict(level='model_checking', technique='exhaustive enumeration of all digraphs <=N nodes on the real DependencyGraph + exhaustive dependency configurations through the real Evolver',
    text='All labelled digraphs on <=4 (quick) / <=5 (thorough) nodes through the real DependencyGraph.get_ordered, checked against an independent Kahn oracle; generated multi-app projects with every single-dependency assignment through the real Evolver, order observed from signals.',
    note='Independent 15-line Kahn implementation is the trusted oracle.',
